@@ -31,8 +31,8 @@ TECHNIQUE = ('exhaustive start-sorted position lists through the real encoder, d
 LEVEL_TEXT = ('All start-sorted position lists of length <= 2 over a 960-value boundary alphabet and all triples over a '
               '135-value sub-alphabet (every encoding form and every transition between forms, incl. multi-line spans) are '
               'encoded by the working-tree LineTable.py and decoded by CPython itself; the decoded list must equal the input.  '
-              'About 3000 compiled raising functions (nesting depth <= 2, every statement position, 8 raise kinds, 7 function '
-              'kinds, 3 call chains) must produce the same traceback (file, function, line) sequence as CPython, and their code '
+              'About 1900 (quick; 11000 thorough, depth <= 3) compiled raising functions (nesting depth <= 2, every statement position, '
+              '8 raise kinds, 7 function kinds, 3 call chains) must produce the same traceback (file, function, line) sequence as CPython, and their code '
               'objects must decode to the positions the compiler recorded.')
 LEVEL_NOTE = ('Encoder alphabet is a boundary set, lists <= 3 entries (+ length-50 alternations); columns < 2**16.  Tracebacks: '
               'function names are compared by their last dotted component (Cython reports module-qualified names by design); '
@@ -307,7 +307,7 @@ def family(tier):
     for kind in FUNC_KINDS:
         for chain in CHAINS:
             for rk in RAISES:
-                for st in [()] + [(w,) for w in names]:
+                for st in [()] + [(w,) for w in (names if tier != 'quick' else ('if', 'with', 'tryfin', 'inexcept'))]:
                     if kind == 'def' and chain == 'direct' and rk in CORE_RAISES:
                         continue
                     cases.append((kind, st, rk, 1, chain))
